@@ -220,6 +220,34 @@ def run(ctx):
     ctx.sample({k: v for k, v in cev[50].items() if k not in ('text', 'bin')})
     rej = ctx.judge('Trace_C10', ev, chunk=1500)
     ctx.traces += len(ev) - len(rej)
+    bad = {i for i, _ in rej}
+    good = [e for i, e in enumerate(ev) if i not in bad and len(e['text']) < 1500]
+
+    def c_bin(e):
+        if e['k'] != 'write' or not e['bin']:
+            return None
+        e['bin'][0] ^= 1
+        return e
+
+    def c_silent(e):
+        if e['k'] != 'read' or not e['crcwarned'] or e['out'] != 'ok':
+            return None
+        e['crcwarned'] = False
+        return e
+
+    def c_line(e):
+        if e['k'] != 'write':
+            return None
+        t = e['text']
+        i = next(j for j in range(len(t) - 1) if t[j] == 10 and t[j + 1] == 10) + 2
+        nl = t.index(10, i)
+        if nl - i < 64 or t.index(10, nl + 1) - nl < 20:
+            return None
+        e['text'] = t[:nl] + t[nl + 1:nl + 15] + [10] + t[nl + 15:]      # first body line made 78 columns long
+        return e
+    ctx.selftest(lambda b: ctx.judge('Trace_C10', b), good,
+                 [('binary export differs from the armored payload', c_bin), ('CRC mismatch not reported', c_silent), ('a 78-column body line', c_line),
+                  ('loaded payload differs', lambda e: dict(e, bin=e['bin'][:-1] + [e['bin'][-1] ^ 1]) if e['k'] == 'read' and e['out'] == 'ok' and not e['crcwarned'] and e['bin'] else None)], 'C10')
     ctx.extra['written_blocks'] = len(wev)
     ctx.extra['read_variants'] = len(rev)
     ctx.extra['corruptions'] = len(cev)
